@@ -35,6 +35,34 @@ def universe():
     return pts
 
 
+# keys spelt like attributes of the query builder: the item syntax `TagQuery()["test"]` exists so that such keys
+# can be addressed; and a few keys that are not identifiers
+ODD_KEYS = ["test", "map", "search", "matches", "exists", "noop", "is_hashable", "_path", "_hash", "_test",
+            "__class__", "__call__", "a b", "é", "0", "tags", "fields", "time", "measurement"]
+
+
+def odd_universe():
+    pts = []
+    for k in ODD_KEYS:
+        pts.append(["pt", str(T0), hx("m"), ["tags", [hx(k), hx("x")]], ["fields", [hx(k), "1"]]])
+        pts.append(["pt", str(T0), hx("m"), ["tags", [hx(k), "~"]], ["fields", [hx(k), "~"]]])
+    pts.append(["pt", str(T0), hx("m"), ["tags"], ["fields"]])
+    return pts
+
+
+def odd_exprs():
+    xs = []
+    for k in ODD_KEYS:
+        xs += [["tag", hx(k), ["cmp", "eq", "s:" + hx("x")]], ["tag", hx(k), ["cmp", "ne", "s:" + hx("x")]],
+               ["tag", hx(k), ["exists"]], ["tag", hx(k), ["re", "match", hx("x"), "-"]],
+               ["tag", hx(k), ["test", "isstr"]], ["tag", hx(k), ["map", ["upper"], ["cmp", "eq", "s:" + hx("X")]]],
+               ["field", hx(k), ["cmp", "gt", "n:0"]], ["field", hx(k), ["exists"]],
+               ["field", hx(k), ["test", "numgt", "n:0"]],
+               ["not", ["field", hx(k), ["cmp", "le", "n:1"]]],
+               ["and", ["tag", hx(k), ["exists"]], ["field", hx(k), ["cmp", "eq", "n:1"]]]]
+    return xs
+
+
 def leaves():
     L = []
     for c in G.CMPS:
@@ -150,15 +178,24 @@ class FamilyC09:
         xs = self.exprs(tier, search)
         lines, impl, meta = [], [], []
         build_err = 0
-        for x in xs:
+        U2 = odd_universe()
+        pobjs2 = [V.build_point(p, tf) for p in U2]
+        for x, (UU, PP) in [(x, (U, pobjs)) for x in xs] + [(x, (U2, pobjs2)) for x in odd_exprs()]:
             try:
                 q = V.build_query(x, tf)
+                if not callable(q):
+                    raise TypeError(f"the expression built a {type(q).__name__}, not a query")
             except Exception as e:
+                # every expression of the vocabulary is well-formed (operand types respect the constructors' rules):
+                # one whose construction raises can never be evaluated
                 build_err += 1
-                res.notes.append(f"construction of {V.sx(x)[:80]} raised {type(e).__name__}")
+                if len(res.findings) < 20:
+                    res.findings.append(Finding(
+                        "impl-vs-spec", f"building the well-formed query {V.sx(x)[:200]} raised {type(e).__name__}: {str(e)[:120]}",
+                        dict(family="c09", query=x, point=UU[0], observed="err " + type(e).__name__, expected="a query")))
                 continue
             qs = V.sx(x)
-            for p, po in zip(U, pobjs):
+            for p, po in zip(UU, PP):
                 impl.append(impl_eval(tf, q, po))
                 lines.append(f"(eval {qs} {V.sx(p)})")
                 meta.append((x, p))
